@@ -588,7 +588,8 @@ def synth_not_bytecode(rng, magics):
     if kind == "dropbox_like":
         # the encrypted-code layout of the dropbox loader: 'c', two key words (the second is also the byte count),
         # then the (here: random) cipher text; sizes 0, 1, odd, huge and negative
-        b = rng.choice([0, 1, 15, 16, 17, 64, 200, 4096, 65536, (1 << 31) - 1, -1, -16, rng.between(1, 600)])
+        b = rng.choice([0, 1, 15, 16, 17, 64, 200, 4096, 65536, 1 << 22, 1 << 24, 3 << 23, 1 << 25, (1 << 31) - 1, -1,
+                        -16, rng.between(1, 600)])
         pad = (b + 15) & ~0xF
         body = rng.bytes(max(0, min(pad if pad > 0 else 0, 2000)) + rng.choice([0, 0, 1, 7]))
         if rng.chance(1, 2):
